@@ -134,16 +134,22 @@ let run (imp : string) (inp : string) (obs : string) : string * string =
           | "swisscard2" -> statement_verdict imp base (K.sc2_statement_output a rs)
           | "supercard" -> statement_verdict imp base (K.sup_statement_output a rs)
           | "swisscard" -> statement_verdict imp base (K.sc_statement_output a rs)
+          | "cumulus" -> statement_verdict imp base (K.cum_statement_output a rs)
           | "postfinance" -> statement_verdict imp base (K.pf_statement_output a rs)   (* postfinance_debug = false *)
-          | _ -> "ok")                                     (* no executable statement-level specification yet *)
+          | _ -> failwith ("unknown importer " ^ imp))
        | _ -> undecoded) in
   let spec =
     if kind = "wf" then
       if cls <> "OK" then "FAIL:well-formed statement not imported: " ^ clip 60 base
-      else if pr <> "ok" && rows <> "ok" then "FAIL:print=" ^ pr ^ "; rows=" ^ rows
-      else if pr <> "ok" then "FAIL:print=" ^ pr
-      else if rows <> "ok" then "FAIL:rows=" ^ rows
-      else statement_spec ()
+      else
+        (* the statement-level verdict is evaluated whatever the observer's verdicts say (a known finding of the
+           row reader, e.g. cumulus' payment rows, must not hide a wrong journal) *)
+        let st = statement_spec () in
+        let also = if st = "ok" then "" else "; " ^ String.sub st 5 (String.length st - 5) in
+        if pr <> "ok" && rows <> "ok" then "FAIL:print=" ^ pr ^ "; rows=" ^ rows ^ also
+        else if pr <> "ok" then "FAIL:print=" ^ pr ^ also
+        else if rows <> "ok" then "FAIL:rows=" ^ rows ^ also
+        else st
     else
       (* a damaged statement or a missing/empty account flag: outside C13, which quantifies over
          well-formed statements (and `import` is not among C14's commands).  No verdict; the
